@@ -46,6 +46,7 @@ var mgWants = []mgWant{
 	{"internal/trigger/api/iteration_distribution.go", "", "withRegularDistribution", "distributedRateFn", "dist_regular"},
 	{"internal/trigger/api/iteration_jitter.go", "", "WithJitter", "return", "jitter"},
 	{"internal/trigger/ramp/ramp_rate.go", "", "CalculateRampRate", "rateFn", "ramp_rateFn"},
+	{"internal/trigger/staged/calculator.go", "RateCalculator", "Rate", "", "staged_Rate"},
 }
 
 var timeConsts = map[string]string{"Nanosecond": "1", "Microsecond": "1000", "Millisecond": "1000000",
@@ -186,6 +187,13 @@ func (c *mgCtx) expr(e ast.Expr) string {
 		}
 		return "(.var " + leanStr(c.path(x)) + ")"
 	case *ast.SelectorExpr:
+		if ix, ok := x.X.(*ast.IndexExpr); ok {
+			// x.items[i].Field
+			if p := c.path(ix.X); p != "" {
+				return "(.index " + leanStr(p) + " " + c.expr(ix.Index) + " " + leanStr(x.Sel.Name) + ")"
+			}
+			return c.unsupportedE(e)
+		}
 		if id, ok := x.X.(*ast.Ident); ok && id.Obj == nil {
 			if id.Name == "time" {
 				if v, ok := timeConsts[x.Sel.Name]; ok {
@@ -241,6 +249,11 @@ func (c *mgCtx) call(x *ast.CallExpr) string {
 	// conversions
 	switch f := x.Fun.(type) {
 	case *ast.Ident:
+		if f.Name == "len" && len(x.Args) == 1 {
+			if p := c.path(x.Args[0]); p != "" {
+				return "(.len " + leanStr(p) + ")"
+			}
+		}
 		switch f.Name {
 		case "int", "int64", "uint64", "float64", "int32", "uint32", "uint":
 			if len(x.Args) == 1 {
